@@ -599,6 +599,8 @@ class Calls(Exec):
             m = self.ev1(a[0], st)
             ch = self.ev1(a[1], st)
             return VBool(self.holds(st, m, ch, node))
+        if name == 'int_str':
+            return self.int_str(st, self.num(self.ev1(a[0], st)))
         if name == 'total_len':
             # total length of the strings in a list of opaque values
             l = self.ev1(a[0], st)
@@ -867,6 +869,10 @@ class Calls(Exec):
         if name == 'float':
             return self.umap(st, args[0], lambda s, v: self.to_float(s, v, node), node)
         if name == 'str':
+            if args and isinstance(args[0], (VInt, VBool)):
+                return one(self.int_str(st, self.num(args[0])))
+            if args and isinstance(args[0], VStr):
+                return one(args[0])
             return one(self.make_fresh(st, ('str',), 'str'))
         if name == 'list':
             if not args:
@@ -890,6 +896,13 @@ class Calls(Exec):
         if name == 'print':
             return one(NONE)
         raise Unsupported('builtin %s' % name, node)
+
+    def int_str(self, st, t):
+        "str(int): an uninterpreted but deterministic string (at least one character)"
+        arr = z3.Function('IntStrArr', IntS, ArrII)(t)
+        ln = z3.Function('IntStrLen', IntS, IntS)(t)
+        st.assume(ln >= 1)
+        return VStr(arr, z3.IntVal(0), ln)
 
     def isinstance_(self, st, v, cv, node):
         if isinstance(cv, VClass):
